@@ -37,6 +37,9 @@ def gen_demux_case(ctx):
             argv += ["--untrimmed-paired-output", "{dir}/ut2.fastq"]
     if rng.random() < 0.3:
         argv += ["-m", str(rng.randint(5, 15))]
+    rc = comb and rng.random() < 0.4
+    if rc:
+        argv.append("--revcomp")
     multi = not comb and rng.random() < 0.4
     if multi:
         argv += ["--times", str(rng.randint(2, 3))]
@@ -58,6 +61,11 @@ def gen_demux_case(ctx):
             else:
                 extra.append((nm, s_, q_))
         r1 = extra
+    if rc:
+        # paired --revcomp: pairs given "the other way round" (R1's adapters in R2 and vice versa) are swapped by the adapter stage
+        sw = [rng.random() < 0.5 for _ in r1]
+        r1, r2 = ([(a[0], b[1], b[2]) if w else a for a, b, w in zip(r1, r2, sw)],
+                  [(b[0], a[1], a[2]) if w else b for a, b, w in zip(r1, r2, sw)])
     return dict(argv=argv, paired=paired, reads1=r1, reads2=r2, with_qual=True, interleaved_in=False, demux_case=True,
                 names=names, names2=names2, comb=comb)
 
@@ -169,6 +177,26 @@ def oracle(ctx, case, res, real):
                 ctx.failures.append(Failure("C15/wrong-file", "read (pair) is not in the file named after the adapter of its last match on R1 "
                                             "(the pair of last-match names with {name1}/{name2})", inp, dict(read=k, files=where.get(k, [])), exp))
             ctx.nontriv(("routed", k, an, an2, tuple(argv)))
+    # {name1}/{name2}: a mate filed under `unknown` was not trimmed, a mate filed under an adapter name was (checked against the input
+    # mate it stems from: with paired --revcomp the mates of a pair flagged ` rc` are swapped) - independent of the renaming reference run
+    if comb and "--times" not in argv and "--action" not in argv:
+        src = {rid(a[0]): (a, b) for a, b in zip(case["reads1"], case["reads2"])}
+        for fn, recs in real["files"].items():
+            if not fn.startswith("dm-"):
+                continue
+            stem, side, _ext = fn.rsplit(".", 2)
+            n1, n2 = stem[len("dm-"):].split("-", 1)
+            for r in recs:
+                swapped = r[0].endswith(" rc")
+                a, b = src[rid(r[0])]
+                source = (b if swapped else a) if side == "1" else (a if swapped else b)
+                named = n1 if side == "1" else n2
+                trimmed = r[1] != source[1]
+                if trimmed != (named != "unknown"):
+                    ctx.failures.append(Failure("C15/wrong-file", "a mate filed under an adapter name was not trimmed, or a trimmed mate is filed under 'unknown' "
+                                                "({name1}/{name2} must be the last-match names of R1 and R2)", inp,
+                                                dict(file=fn, record=r, trimmed=trimmed), None))
+                ctx.count("comb-name-vs-trimmed")
     # multiset equality with the plain output when no trimmed/untrimmed option is used
     if not discard and not ut:
         for side in ("1", "2") if case["paired"] else ("1",):
